@@ -6,6 +6,7 @@
   otherwise — never anything else.
 -/
 import FlacModel.Model.FileDecode
+import FlacModel.Proofs.Local
 
 namespace Flac.C14
 open Flac
@@ -66,5 +67,81 @@ theorem prefix_decodes_complete_frames (p : Profile) (si : SInfo)
       have := ih (fun x hx => hloc x (by simp [hx])) fuel (cur + d.hdr.blockSize) (d.channels :: acc) (by simp at hfuel; omega)
       rw [this]
       simp
+
+
+/-! ### discharging the locality hypotheses
+
+`Loc` and `Truncated` were hypotheses of the loop theorem.  Both follow, for every frame that decodes
+using all of its bytes, from the left-to-right structure of the parsers (`Proofs/Local.lean`). -/
+
+theorem decodeFrame_header (p : Profile) (si : Option SInfo) (f : List Nat) (d : Decoded) (h : decodeFrame p si f = .ok d) :
+    ∃ n, parseHeaderBytes si f = .ok (d.hdr, n, true) := by
+  unfold decodeFrame at h
+  cases h1 : readHeaderFields si (bytesToBits f) with
+  | error e => rw [h1] at h; cases h
+  | ok v1 =>
+    obtain ⟨hd, r1⟩ := v1
+    rw [h1] at h; dsimp only at h
+    cases h2 : checkStreaminfo si hd with
+    | error e => rw [h2] at h; cases h
+    | ok u =>
+      rw [h2] at h; dsimp only at h
+      split at h
+      · cases h
+      rename_i hc8
+      split at h
+      · cases h
+      cases h3 : decSubframes p hd.assign hd.blockSize hd.bps hd.assign.count 0 r1 with
+      | error e => rw [h3] at h; cases h
+      | ok v3 =>
+        obtain ⟨chs, r2⟩ := v3
+        rw [h3] at h; dsimp only at h
+        cases h4 : recorrelate p hd.assign hd.bps chs with
+        | error e => rw [h4] at h; cases h
+        | ok out =>
+          rw [h4] at h; dsimp only at h
+          cases h5 : readU 16 (r2.drop (r2.length % 8)) with
+          | error e => rw [h5] at h; cases h
+          | ok v5 =>
+            obtain ⟨c16, r3⟩ := v5
+            rw [h5] at h; dsimp only at h
+            split at h
+            · cases h
+            · cases h
+              refine ⟨f.length - r1.length / 8, ?_⟩
+              simp only [parseHeaderBytes, h1]
+              have : Gen.crc8Valid (crc8 (f.take (f.length - r1.length / 8))) = true := by simpa using hc8
+              rw [this]
+
+/-- every frame that decodes, using all of its bytes, is local -/
+theorem loc_of_decodes (p : Profile) (si : SInfo) (f : List Nat) (d : Decoded)
+    (h : decodeFrame p (some si) f = .ok d) (hu : d.used = f.length) : Loc p si f d := by
+  refine ⟨fun rest => decodeFrame_ext p (some si) f d h rest, hu, fun rest => ?_⟩
+  obtain ⟨n, hn⟩ := decodeFrame_header p (some si) f d h
+  exact ⟨n, parseHeaderBytes_ext (some si) f _ hn rest⟩
+
+/-- every non-empty strict prefix of such a frame is detected as truncated -/
+theorem truncated_of_cut (p : Profile) (si : SInfo) (part x : List Nat) (d : Decoded)
+    (h : decodeFrame p (some si) (part ++ x) = .ok d) (hu : d.used = (part ++ x).length) (hp : part ≠ []) (hx : x ≠ []) :
+    Truncated p si part :=
+  ⟨hp, decodeFrame_cut p (some si) part x d h hu hx⟩
+
+/-- **C14, without locality hypotheses.**  Take any frames that each decode using all of their bytes
+    (what the encoder has written so far) followed by any strict prefix of one more such frame (the
+    write that was interrupted).  The decode loop delivers exactly the complete frames, in order, and
+    then stops: cleanly if the cut fell on a frame boundary, with an end-of-data error otherwise. -/
+theorem interrupted_decodes_complete_frames (p : Profile) (si : SInfo)
+    (fs : List (List Nat × Decoded)) (hdec : ∀ fd ∈ fs, decodeFrame p (some si) fd.1 = .ok fd.2 ∧ fd.2.used = fd.1.length)
+    (part x : List Nat) (d : Decoded)
+    (hcut : part = [] ∨ (x ≠ [] ∧ decodeFrame p (some si) (part ++ x) = .ok d ∧ d.used = (part ++ x).length))
+    (fuel cur : Nat) (acc : List (List (List Int))) (hfuel : fs.length < fuel) :
+    decodeLoop p si 0 fuel ((fs.map (·.1)).flatten ++ part) cur acc
+      = (acc.reverse ++ fs.map (·.2.channels), if part = [] then none else some .eof) := by
+  apply prefix_decodes_complete_frames p si fs (fun fd hfd => loc_of_decodes p si fd.1 fd.2 (hdec fd hfd).1 (hdec fd hfd).2) part _ fuel cur acc hfuel
+  rcases hcut with h | ⟨hx, hd, hu⟩
+  · exact Or.inl h
+  · by_cases hp : part = []
+    · exact Or.inl hp
+    · exact Or.inr (truncated_of_cut p si part x d hd hu hp hx)
 
 end Flac.C14
